@@ -938,8 +938,10 @@ class CompilerPassGenerateCode(CompilerPass):
                 is_increasing = args[2]._ndata.constant_value >= 0
 
         for_label, end_label = self.get_label("for", "for.end")
+        # `continue` must still run the increment: it targets a label in front of it
+        continue_label = for_label.replace("lbfor", "lbfor.continue", 1)
         data = node._ndata
-        data.start_label = for_label
+        data.start_label = continue_label
         data.end_label = end_label
 
         iter_sym = self.get_intermediate_symbol(node)
@@ -955,6 +957,7 @@ class CompilerPassGenerateCode(CompilerPass):
         for stmt in node.body:
             self.compile_node(stmt)
 
+        data.add_end(IC10(f"{continue_label}:"))
         data.add_end(IC10("add", [iter_sym, step], iter_sym, indent=1))
         data.add_end(IC10("j", [for_label], indent=1))
         data.add_end(IC10(f"{end_label}:"))
